@@ -209,6 +209,32 @@ func TestVerifConcVisibility(t *testing.T) {
 	vtrace.Done("TestVerifConcVisibility", map[string]interface{}{"rounds": rounds, "reads": totalReads, "writes": totalWrites})
 }
 
+func vcDrain(itr query.Iterator, n *int) {
+	for {
+		var done bool
+		switch it := itr.(type) {
+		case query.FloatIterator:
+			p, _ := it.Next()
+			done = p == nil
+		case query.IntegerIterator:
+			p, _ := it.Next()
+			done = p == nil
+		case query.StringIterator:
+			p, _ := it.Next()
+			done = p == nil
+		case query.BooleanIterator:
+			p, _ := it.Next()
+			done = p == nil
+		default:
+			done = true
+		}
+		if done {
+			return
+		}
+		*n++
+	}
+}
+
 // Conflicting concurrent writes of different types to a NEW field: exactly one type wins, every
 // acknowledged write of that type is readable, nothing of another type is stored.
 func TestVerifConcFieldTypes(t *testing.T) {
@@ -263,29 +289,15 @@ func TestVerifConcFieldTypes(t *testing.T) {
 				Expr: influxql.MustParseExpr(`f`), Ascending: true, StartTime: influxql.MinTime, EndTime: influxql.MaxTime})
 			n := 0
 			if err == nil && itr != nil {
-				for {
-					var done bool
-					switch it := itr.(type) {
-					case query.FloatIterator:
-						p, _ := it.Next()
-						done = p == nil
-					case query.IntegerIterator:
-						p, _ := it.Next()
-						done = p == nil
-					case query.StringIterator:
-						p, _ := it.Next()
-						done = p == nil
-					case query.BooleanIterator:
-						p, _ := it.Next()
-						done = p == nil
-					default:
-						done = true
-					}
-					if done {
-						break
-					}
-					n++
-				}
+				func() {
+					// a value of another type stored in the field makes the cursor panic
+					defer func() {
+						if rec := recover(); rec != nil {
+							err = fmt.Errorf("panic while reading the field back: %v", rec)
+						}
+					}()
+					vcDrain(itr, &n)
+				}()
 				itr.Close()
 			}
 			var want int64
